@@ -164,15 +164,23 @@ def r02_2(ctx, prog, crate, rec):
     for sp in rec.sync_closures:
         cb = prog.bodies.get((b.crate, sp, -1))
         bodies, ext, _ = prog.callee_closure([cb], crate=b.crate)
-        sync_bodies.extend(x for x in bodies if any(c.callee == "std::sync::Barrier::wait" for c in x.calls))
+        from .common import pure_waiter as _pw
+        direct = [x for x in bodies if any(c.callee == "std::sync::Barrier::wait" for c in x.calls)]
+        callers = [x for x in bodies if any(_pw(prog, x, c) for c in x.live_calls())]
+        helpers = [x for x in direct if set(c.callee for c in x.live_calls()) == {"std::sync::Barrier::wait"} and any(
+            any(_pw(prog, y, c) and (c.name == x.path or c.callee == x.path) for c in y.live_calls()) for y in callers)]
+        sync_bodies.extend([x for x in direct if x not in helpers] + [x for x in callers if x not in direct])
     if ctx.anchor("R02.2", "sync implementation (body calling Barrier::wait)", sync_bodies, 1):
         clears_somewhere = False
         for sb in sync_bodies:
             ctx.saw(sb)
 
-            def tag(c):
+            def tag(c, sb=sb):
                 n = c.callee
                 if n == "std::sync::Barrier::wait":
+                    return "wait"
+                from .common import pure_waiter
+                if pure_waiter(prog, sb, c):
                     return "wait"
                 if n.endswith("ThreadAllocInfo::clear"):
                     return "clear"
